@@ -597,11 +597,22 @@ def per_command_obs(obs):
     return out
 
 
-def representable(obs):
+def c_res(sn, is_init):
+    """the third outcome: an initialize aborted by an exception of the model's construct_model"""
+    if sn[0] == "ok":
+        return "ResOk"
+    if sn[0] == "refused":
+        return "ResRefused"
+    if is_init and sn[0] == "exc:RuntimeError":
+        return "ResRaised"
+    return None
+
+
+def representable(obs, cmds=None):
     if "error" in obs:
         return "driver error: " + obs["error"]
-    for sn, seg in per_command_obs(obs):
-        if sn[0] not in ("ok", "refused"):
+    for j, (sn, seg) in enumerate(per_command_obs(obs)):
+        if c_res(sn, bool(cmds) and j < len(cmds) and cmds[j][0] == "init") is None:
             return f"command outcome {sn[0]}"
         if sn[1] not in RS or sn[2] not in PS or not isinstance(sn[3], int):
             return f"snapshot {sn}"
@@ -617,10 +628,11 @@ def c_lcase(case, obs):
     prog = C.clist(C.clist(c_action(a) for a in body) for body in case["prog"])
     cmds = C.clist(c_cmd(c) for c in case["cmds"])
     snaps = C.clist(
-        f"mkLsnap {'ResOk' if sn[0] == 'ok' else 'ResRefused'} {RS[sn[1]]} {PS[sn[2]]} {C.cz(sn[3])} {C.cnat(sn[4])} "
+        f"mkLsnap {c_res(sn, case['cmds'][j][0] == 'init')} {RS[sn[1]]} {PS[sn[2]]} {C.cz(sn[3])} {C.cnat(sn[4])} "
         f"{C.cnat(sn[5])} {C.clist(c_ntf(nm, t) for nm, t in seg)}"
-        for sn, seg in per_command_obs(obs))
-    return f"(mkLcase {STRAT[case['strategy']]} {prog} {cmds} {snaps})"
+        for j, (sn, seg) in enumerate(per_command_obs(obs)))
+    fails = C.clist(C.cnat(k) for k in sorted(case.get("construct_fails", [])))
+    return f"(mkLcase {STRAT[case['strategy']]} {prog} {cmds} {fails} {snaps})"
 
 
 def coq_compare(scratch, cases, obs, shard=400):
@@ -629,10 +641,9 @@ def coq_compare(scratch, cases, obs, shard=400):
     codes = [0] * len(cases)
     idxs = []
     for i, o in enumerate(obs):
-        if cases[i].get("rapid") or cases[i].get("construct_fails"):
-            codes[i] = 5          # commands not issued at quiescence / initialize aborted by a failing construct_model
-                                  # (Sim/Model.v flags it as not covered): outside M1, judged by the oracle only
-        elif representable(o) is None:
+        if cases[i].get("rapid"):
+            codes[i] = 5          # commands not issued at quiescence: outside M1, judged by the oracle only
+        elif representable(o, cases[i]["cmds"]) is None:
             idxs.append(i)
         else:
             codes[i] = 4
@@ -1096,7 +1107,7 @@ def main(tier: str) -> int:
             run.violation(sig, what + "; no clause of the property was found violated by the oracle on the explored inputs",
                           {"case": {k: cases[i][k] for k in ("kind", "clock", "strategy", "prog", "cmds", "lcmds", "construct_fails", "rapid", "slow_handler_ms") if k in cases[i]},
                            "impl_observation": {k: obs[i].get(k) for k in ("snaps", "ntfs", "alive", "notes", "error")},
-                           "model_view": coq_view(cases[i], obs[i]) if want != 4 else representable(obs[i]),
+                           "model_view": coq_view(cases[i], obs[i]) if want != 4 else representable(obs[i], cases[i]["cmds"]),
                            "relation": "Sim.Lifecycle.lcase_code", "other_disagreeing_cases": len(idx) - 1},
                           found_input=False)
         break
